@@ -62,12 +62,15 @@ def main():
     tcfg = dict(mod.TIERS[args.tier])
     batch = args.batch or tcfg.get('batch', 1)
     soft = tcfg.get('soft_timeout', 120)
+    use_fork = tcfg.get('fork', True)
     known = load_known(args.prop)
     known_sigs = [e['signature'] for e in known]
 
     gc.disable()
     t0 = time.monotonic()
     mod.warmup()
+    gc.collect()
+    gc.freeze()  # children never scan (and so never copy-on-write) the warm heap
     warm_s = time.monotonic() - t0
 
     env = {'variant': args.variant, 'known': known_sigs, 'tier': args.tier,
@@ -127,7 +130,9 @@ def main():
                 if x.get('violation') and variant:
                     break
             return res
-        return proc.fork_call(fn, soft=soft * max(1, min(len(rs), 4)))
+        if use_fork:
+            return proc.fork_call(fn, soft=soft * max(1, min(len(rs), 4)))
+        return proc.local_call(fn, soft=soft * max(1, min(len(rs), 4)))
 
     def same_violation(cfg, ops, sig, variant):
         res = proc.fork_call(lambda: exec_one(cfg, ops, variant), soft=soft)
